@@ -390,6 +390,31 @@ theorem LogObj.run_spec (o : LogObj α) (hc : o.Consistent) (ops : List (Op α))
 
 end LogSum
 
+/-! ### the `append` option of the all-sites posterior accessor -/
+
+theorem RescObj.posteriorInto_of_posterior (o : RescObj α) (buf : List (List α)) (append : Bool) (m : List (List α))
+    (h : (o.step .posterior).2 = .mat m) :
+    (o.step (.posteriorInto buf append)).2 = .mat ((if append then buf else []) ++ m) := by
+  have h1 : (o.step .posterior).2 = .mat (posteriorOf o.refreshBack.fw.lik o.refreshBack.back) := rfl
+  have h2 : (o.step (.posteriorInto buf append)).2
+      = .mat ((if append then buf else []) ++ posteriorOf o.refreshBack.fw.lik o.refreshBack.back) := rfl
+  rw [h1] at h
+  rw [h2, Ans.mat.inj h]
+
+theorem LogObj.posteriorInto_of_posterior [HasIsInf α] (o : LogObj α) (buf : List (List α)) (append : Bool)
+    (m : List (List α)) (h : (o.step .posterior).2 = .mat m) :
+    (o.step (.posteriorInto buf append)).2 = .mat ((if append then buf else []) ++ m) := by
+  have h1 : (o.step .posterior).2 = (match logPosteriorOf o.refreshBack.fw o.refreshBack.back o.refreshBack.bps with
+      | some m => Ans.mat m | none => Ans.ub) := rfl
+  have h2 : (o.step (.posteriorInto buf append)).2
+      = (match logPosteriorOf o.refreshBack.fw o.refreshBack.back o.refreshBack.bps with
+          | some m => Ans.mat ((if append then buf else []) ++ m) | none => Ans.ub) := rfl
+  rw [h1] at h
+  rw [h2]
+  cases hp : logPosteriorOf o.refreshBack.fw o.refreshBack.back o.refreshBack.bps with
+  | none => rw [hp] at h; cases h
+  | some m' => rw [hp] at h; rw [Ans.mat.inj h]
+
 /-! ### low-memory class -/
 
 def LowObj.run (o : LowObj α) : List (Op α) → List (Ans α)
